@@ -253,6 +253,7 @@ CHECKS["C08"] = {
     "assumptions": ["scrypt cost lowered by the verif hook"],
     "units": [
         {"pkg": "mboxprop", "run": "TestC08CipherStream", "checks": (400, 3000), "shards": (1, 8), "timeout": (900, 3600)},
+        {"pkg": "mboxprop", "run": "TestC08Duplex", "checks": (600, 20000), "shards": (1, 8), "timeout": (900, 3600)},
     ],
 }
 
@@ -287,6 +288,7 @@ CHECKS["C15"] = {
         {"pkg": "mboxprop", "run": "TestC15Grpc", "checks": (1500, 20000), "shards": (1, 4), "timeout": (900, 3600)},
         {"pkg": "mboxprop", "run": "TestC15TCP", "checks": (1500, 20000), "shards": (1, 4), "timeout": (900, 3600)},
         {"pkg": "mboxprop", "run": "TestC15Mailbox", "checks": (1200, 15000), "shards": (1, 8), "timeout": (900, 3600)},
+        {"pkg": "mboxprop", "run": "TestC15Interleaved", "checks": (400, 20000), "shards": (1, 8), "timeout": (900, 3600)},
         {"pkg": "mboxprop", "run": "TestC15Coalesce", "checks": (1500, 40000), "shards": (1, 8), "timeout": (900, 3600)},
         {"pkg": "mboxprop", "run": "TestC15LengthSweep", "kind": "plain", "timeout": (900, 3600)},
     ],
